@@ -43,10 +43,16 @@ func NewHTTPResponseBody(
 			return HTTPResponseBody{}, adoptErrorForResponseBody(d, err)
 		}
 	case SerializeFormatPlainString:
-		s, err = NewExchangeRegexSchema(b)
+		rs, err := NewExchangeRegexSchema(b)
+		if err == nil {
+			// An invalid regular expression has to be reported now, not when the
+			// catalog is serialised.
+			err = rs.Check()
+		}
 		if err != nil {
 			return HTTPResponseBody{}, adoptErrorForResponseBody(d, err)
 		}
+		s = rs
 	default:
 		s = NewExchangePseudoSchema(sn)
 	}
